@@ -275,6 +275,17 @@ def builder_oracle(args):
                 return f"from_pauli_sum(n_sweeps={sweeps}).to_matrix() differs from the sum of its terms by {np.max(np.abs(mpo.to_matrix() - want)):.3e}; terms {[(z, spec_of(o)) for z, (_, o) in zip(cz, terms)]}"
             if not np.allclose(mpo.to_sparse_matrix().toarray(), mpo.to_matrix(), atol=1e-12):
                 return "to_sparse_matrix differs from to_matrix"
+        # explicit compression, every sweep schedule: the operator changes by no more than the tolerance
+        if L >= 2:
+            for directions in ("lr", "rl", "lr_rl", "rl_lr"):
+                for sweeps in (1, 2, 3):
+                    mpo = MPO()
+                    mpo.from_pauli_sum(terms=[(z, spec_of(o)) for z, (_, o) in zip(cz, terms)], length=L, n_sweeps=0)
+                    mpo.compress(tol=1e-12, n_sweeps=sweeps, directions=directions)
+                    dev = float(np.max(np.abs(mpo.to_matrix() - want)))
+                    if dev > 1e-8:
+                        return (f"compress(tol=1e-12, n_sweeps={sweeps}, directions='{directions}') changed the operator by {dev:.3e}; "
+                                f"terms {[(z, spec_of(o)) for z, (_, o) in zip(cz, terms)]}")
         return None
     if kind in ("ising", "heisenberg", "hamiltonian"):
         L, bc = args["L"], args["bc"]
